@@ -8,6 +8,9 @@ import (
 	"fmt"
 	"os"
 	"sync"
+	"time"
+
+	"github.com/gethiox/HIDI/internal/pkg/midi"
 
 	"github.com/gethiox/HIDI/internal/pkg/logger"
 	"github.com/gethiox/HIDI/internal/pkg/midi/device/config"
@@ -51,6 +54,106 @@ func runScript(b *devBatch, ac *absCfg, conf config.Config, walk []devInput) ([]
 	return outs, ""
 }
 
+// runShared runs the given walks at the same time on devices that all write into ONE output channel of capacity
+// b.SharedOut, read by a single reader that takes b.SlowUs per message.  Per device the messages on its own MIDI channel
+// (the walks begin with as many channel_up taps as the device's index) are returned as one pseudo-step.
+func runShared(b *devBatch, ac *absCfg, conf config.Config, walks [][]devInput, idx []int) ([][][][]int, []string) {
+	shared := make(chan midi.Event, b.SharedOut)
+	per := make(map[int][][]int)
+	var pmu sync.Mutex
+	stop := make(chan struct{})
+	readerDone := make(chan struct{})
+	take := func(m midi.Event) {
+		if len(m) == 0 {
+			return
+		}
+		bb := make([]int, len(m))
+		for i, x := range m {
+			bb[i] = int(x)
+		}
+		pmu.Lock()
+		per[int(m[0]&0x0f)] = append(per[int(m[0]&0x0f)], bb)
+		pmu.Unlock()
+	}
+	go func() {
+		defer close(readerDone)
+		for {
+			select {
+			case m := <-shared:
+				take(m)
+				time.Sleep(time.Duration(b.SlowUs) * time.Microsecond)
+			case <-stop:
+				for {
+					select {
+					case m := <-shared:
+						take(m)
+					default:
+						return
+					}
+				}
+			}
+		}
+	}()
+	msgs := make([]string, len(walks))
+	var wg sync.WaitGroup
+	for i, wk := range walks {
+		wg.Add(1)
+		go func(i int, wk []devInput) {
+			defer wg.Done()
+			r, err := newDevRunInto(conf, ac.Axinfo, b.Sub, 0, 0, shared)
+			if err != nil {
+				msgs[i] = err.Error()
+				return
+			}
+			for _, in := range wk {
+				if in.Ev == "disconnect" {
+					break
+				}
+				var ev = r.event(0, 0, 0)
+				switch in.Ev {
+				case "press", "release":
+					code, err := keyCode(in.K)
+					if err != nil {
+						msgs[i] = err.Error()
+						return
+					}
+					v := int32(1)
+					if in.Ev == "release" {
+						v = 0
+					}
+					ev = r.event(1, code, v) // EV_KEY
+				default:
+					continue
+				}
+				if m := r.send(ev); m != "" {
+					msgs[i] = m
+					return
+				}
+			}
+			close(r.in)
+			select {
+			case m := <-r.done:
+				if m != "" {
+					msgs[i] = "crash: " + m
+				}
+			case <-time.After(20 * time.Second):
+				msgs[i] = "hang: ProcessEvents did not return within 20s of its input being closed"
+			}
+		}(i, wk)
+	}
+	wg.Wait()
+	close(stop)
+	<-readerDone
+	out := make([][][][]int, len(walks))
+	for i := range walks {
+		out[i] = [][][]int{per[idx[i]]}
+		if out[i][0] == nil {
+			out[i][0] = [][]int{}
+		}
+	}
+	return out, msgs
+}
+
 // verifh isolation <batches.json> <out.ndjson>: every walk of a batch is run alone, then all walks of the batch
 // are run at the same time on as many devices; per walk both outputs are logged
 func cmdIsolation(args []string) error {
@@ -90,6 +193,23 @@ func cmdIsolation(args []string) error {
 		conf, err := literalConfig(&ac, b.Sub)
 		if err != nil {
 			return err
+		}
+		if b.SharedOut > 0 {
+			// device i plays on channel (default + i) % 16: its walk starts with i channel_up taps (the driver wrote them)
+			idx := make([]int, k)
+			for i := range b.Walks {
+				idx[i] = (ac.DChan + i) % 16
+			}
+			conc, cm := runShared(b, &ac, conf, b.Walks, idx)
+			for i := range b.Walks {
+				s, sm := runShared(b, &ac, conf, b.Walks[i:i+1], idx[i:i+1])
+				m := cm[i]
+				if m == "" {
+					m = sm[0]
+				}
+				enc.Encode(isoLine{Ev: "isolation", Batch: bi + 1, Script: i + 1, K: k, Solo: s[0], Conc: conc[i], Msg: m})
+			}
+			continue
 		}
 		// the devices side by side first (on a configuration object nobody has used yet), then each alone
 		var wg sync.WaitGroup
